@@ -9,6 +9,7 @@ D  decision (DESIGN.md 2.5), evidence, exit code (0 ok, 1 violation, 2 tool fail
 from __future__ import annotations
 
 import argparse
+import re
 import importlib
 import json
 import os
@@ -48,12 +49,43 @@ def main() -> int:
                 return 2
             aud = lib.audit(pid, thorough=(tier == "thorough"))
             okd, outd = lib.build_driver()
+        if not okd and problems:
+            # the model driver needs a generated definition that the translator could not produce from the changed
+            # source: neither the theorems' premises (pins) nor the correspondence can be re-established
+            payload = {"property": pid, "kind": "no-failing-input-found", "seed": seed, "tier": tier,
+                       "proof_obligations_that_no_longer_check": ["translator: " + p for p in problems] + aud["failures"],
+                       "correspondence_disagreements": ["the model driver does not build against the regenerated definitions"],
+                       "build_log_tail": outd[-2000:]}
+            path = lib.write_replay(pid, payload)
+            lib.write_evidence(res, aud, 1, getattr(mod, "ASSUMPTIONS", ()))
+            print(f"[{pid}] tier={tier} seed={seed} theorems={aud['discharged']}/{aud['obligations']} cases=0 (driver does not build)")
+            print(f"VIOLATION property={pid} replay={path} no-failing-input-found")
+            return 1
         if not okd:
             print(outd[-3000:])
             print(f"TOOL-FAILURE property={pid}: driver does not build")
             return 2
+        # a translator problem concerns this property only when the generated name (or generated module) it is
+        # about is used by a file in the import closure of this property's theorems
+        closure, modules = "", set()
+        for src in lib.lean_sources(pid):
+            modules.add(os.path.basename(src)[:-5])
+            if not os.path.basename(src).startswith("Generated"):
+                try:
+                    closure += open(src).read()
+                except OSError:
+                    pass
         for p in problems:
-            aud["failures"].append("translator: " + p)
+            m = re.match(r"EXTRACT-PROBLEM (\w+):", p)
+            if m is None:
+                aud["failures"].append("translator: " + p)
+            elif m.group(1).startswith("GeneratedCode"):
+                if m.group(1) in modules:
+                    aud["failures"].append("translator: " + p)
+            elif m.group(1).startswith("section_"):
+                pass    # the definitions the section could not produce are missing: files that use them fail to build
+            elif re.search(r"\b" + re.escape(m.group(1)) + r"\b", closure):
+                aud["failures"].append("translator: " + p)
         lib.import_repo()
 
         if args.replay:
